@@ -8,7 +8,7 @@ import common
 from sx import Sym
 
 RULE = ("seeded call sequences (length<=10) on Data3D, ForceTorque3D (add_track, tracks = …) and EMG (addSignal): tracks of the "
-        "block's length and of other lengths, non-track objects (None, str, ndarray, int, a track of another block kind) at every "
+        "block's length and of other lengths, instances of a user subclass of the track class (accepted like any track), non-track objects (None, str, ndarray, int, a track of another block kind) at every "
         "position of assigned lists, generators that raise midway, one-shot iterables that do not (generator, iter, map, filter, reversed), non-iterables; after half of the list assignments the caller appends a wrong-length track to / deletes from ITS list; observed after each call: identity of the tracks "
         "held (block.tracks / iteration) and raised?; non-trivial = sequence with >=1 refused call after >=1 accepted; distinct by calls")
 ASSUMPTIONS = ["'refused' = raises; the exception class is not part of the property"]
@@ -25,7 +25,24 @@ def mk_block(kind, n, rng):
     return EMG(1000, n)
 
 
+_SUB = {}
+
+
+def sub(cls):
+    """a user's subclass of a track class: still a track of the right kind"""
+    if cls not in _SUB:
+        _SUB[cls] = type("My" + cls.__name__, (cls,), {"note": "user subclass"})
+    return _SUB[cls]
+
+
 def mk_track(kind, frames, rng):
+    t = _mk_track(kind, frames, rng)
+    if rng.random() < 0.12:
+        t.__class__ = sub(type(t))
+    return t
+
+
+def _mk_track(kind, frames, rng):
     if kind == "data3d":
         from basictdf.tdfData3D import MarkerTrack
         return MarkerTrack("m", A.frames_array(A.gen_frames(rng, 3, frames), 3) if frames else np.zeros((0, 3), dtype="<f4"))
